@@ -12,4 +12,4 @@ CONSTANTS
   NFeat = 0
   Ops <- OpsSub
   Emit = TRUE
-INVARIANTS TypeOK StreamOK EmitDone
+INVARIANTS TypeOK StreamOK SkipSound EmitDone
